@@ -174,41 +174,26 @@ def gap_iter_exact(repo: Repo, L: Ledger, rule: str):
 
 
 def to_scaffold_orientation(repo: Repo, L: Ledger, rule: str):
-    from ..util import paths
+    """OverlapResult.to_scaffold returns the reversed scaffold exactly when the bait strand is -1
+    (decided by folding the function's conditions for strand in {1, -1, 0})."""
+    from ..finite import run_paths
+
     ovr = repo.cls("OverlapResult")
     ts = ovr.methods.get("to_scaffold")
     if ts is None:
         raise AnalysisError("anchor OverlapResult.to_scaffold vanished")
-    ok6, why6 = True, ""
-    seen = {True: 0, False: 0}
-    for p in paths(ts, (0, 1), exc_edges=False):
-        strand_true = None
-        for e in p.events:
-            if e.kind == "cond":
-                t = norm(e.node).replace(" ", "")
-                if "bait.strand==-1" in t:
-                    strand_true = e.val
-                elif "bait.strand!=-1" in t:
-                    strand_true = not e.val
-                elif "bait.strand==1" in t or "bait.strand>0" in t:
-                    ok6, why6 = False, f"orientation test '{norm(e.node)}' treats unknown strand (0) as reverse"
-                else:
-                    ok6, why6 = False, f"unexpected condition '{norm(e.node)}'"
-        ret = [e.node for e in p.events if e.kind == "return"]
-        if strand_true is None or not ret:
-            ok6, why6 = False, why6 or "a path returns without testing the bait strand"
-            continue
-        rv = ret[0].value
+    ok, why = True, ""
+    for strand in (1, -1, 0):
+        res = [r for r in run_paths(ts.node.body, {"self.bait.strand": strand}, loop_iters=(0,)) if r["path"].status == "return"]
+        if len(res) != 1 or res[0]["unknown_conds"]:
+            raise AnalysisError(f"to_scaffold: orientation not decided by the bait strand alone (strand {strand}: {len(res)} paths)")
+        rv = [e.node for e in res[0]["path"].events if e.kind == "return"][0].value
         reverses = isinstance(rv, ast.Call) and isinstance(rv.func, ast.Attribute) and rv.func.attr == "reverse"
-        seen[strand_true] += 1
-        if reverses != strand_true:
-            ok6, why6 = False, f"bait strand == -1 is {strand_true} but the result is {'reversed' if reverses else 'not reversed'}"
-    if ok6 and not (seen[True] and seen[False]):
-        ok6, why6 = False, "both orientations are not handled"
-    L.check(ok6, rule, ts.short, "reversed exactly when the bait is on the minus strand", why6, ts.loc())
-    # built from all rows
+        if isinstance(rv, ast.IfExp):
+            raise AnalysisError("to_scaffold: conditional expression in return not folded")
+        if reverses != (strand == -1):
+            ok, why = False, f"with bait strand {strand} the fused piece is {'reversed' if reverses else 'not reversed'} (must be reversed exactly for -1; unknown strand streams forward)"
+    L.check(ok, rule, ts.short, "reversed exactly when the bait is on the minus strand", why, ts.loc())
     ctor = [n for n in walk_shallow(ts.node) if isinstance(n, ast.Call) and dotted(n.func) == "Scaffold"]
-    ok6b = len(ctor) == 1 and any(norm(a) == "self.rows" for a in [*ctor[0].args, *[k.value for k in ctor[0].keywords]])
-    L.check(ok6b, rule, ts.short + ":rows", "scaffold built from all rows of the result", "to_scaffold does not pass all rows of the overlap result", ts.loc())
-
-
+    ok2 = len(ctor) == 1 and any(norm(a) == "self.rows" for a in [*ctor[0].args, *[k.value for k in ctor[0].keywords]])
+    L.check(ok2, rule, ts.short + ":rows", "scaffold built from all rows of the result", "to_scaffold does not pass all rows of the overlap result", ts.loc())
